@@ -385,6 +385,17 @@ func lineEndDocs() []string {
 			wrap("<mj-accordion>"+ws+"<mj-accordion-element>"+ws+"<mj-accordion-title>T"+ws+"i</mj-accordion-title>"+ws+"<mj-accordion-text>X"+ws+"y</mj-accordion-text>"+ws+"</mj-accordion-element>"+ws+"</mj-accordion>"),
 			wrap("<mj-navbar>"+ws+"<mj-navbar-link href=\"/a\">A"+ws+"a</mj-navbar-link>"+ws+"</mj-navbar>"+ws+"<mj-social>"+ws+"<mj-social-element name=\"facebook\" href=\"h\">F"+ws+"b</mj-social-element>"+ws+"</mj-social>"))
 	}
+	// placeholders: raw elements that hold nothing but white space with line breaks, alone in a wrapper / section / column / hero
+	// / the body, and next to real content (whether something counts as "blank" must not depend on the line ends)
+	for _, blank := range []string{"<mj-raw>\n</mj-raw>", "<mj-raw>\n  \n</mj-raw>", "<mj-raw> \n\t</mj-raw>"} {
+		sec := "<mj-section>\n<mj-column>\n<mj-text>t</mj-text>\n</mj-column>\n</mj-section>"
+		out = append(out,
+			"<mjml>\n<mj-body>\n<mj-wrapper>\n"+blank+"\n</mj-wrapper>\n"+sec+"\n</mj-body>\n</mjml>",
+			"<mjml>\n<mj-body>\n<mj-wrapper>\n"+blank+"\n"+blank+"\n</mj-wrapper>\n<mj-wrapper>\n"+blank+"\n"+sec+"\n"+blank+"\n</mj-wrapper>\n</mj-body>\n</mjml>",
+			"<mjml>\n<mj-body>\n"+blank+"\n"+sec+"\n"+blank+"\n<mj-section>\n"+blank+"\n</mj-section>\n<mj-section>\n<mj-column>\n"+blank+"\n</mj-column>\n<mj-group>\n"+blank+"\n<mj-column>\n<mj-text>g</mj-text>\n</mj-column>\n</mj-group>\n</mj-section>\n<mj-hero>\n"+blank+"\n</mj-hero>\n</mj-body>\n</mjml>",
+			"<mjml>\n<mj-head>\n"+blank+"\n</mj-head>\n<mj-body>\n"+sec+"\n</mj-body>\n</mjml>",
+			wrap("<mj-navbar>\n"+blank+"\n<mj-navbar-link href=\"/a\">A</mj-navbar-link>\n</mj-navbar>\n<mj-social>\n"+blank+"\n</mj-social>\n<mj-accordion>\n"+blank+"\n</mj-accordion>"))
+	}
 	out = append(out, "<mjml>\n<mj-head>\n<mj-title>a\ntitle</mj-title>\n<mj-preview>pre\nview</mj-preview>\n<mj-style>\n.a {\n  color: red;\n}\n</mj-style>\n<mj-style inline=\"inline\">\n.b {\n  color: blue;\n}\n</mj-style>\n<mj-raw>\n<meta name=\"x\"\n content=\"y\"/>\n</mj-raw>\n<mj-attributes>\n<mj-text\n color=\"#222222\"\n/>\n</mj-attributes>\n</mj-head>\n<mj-body>\n<mj-section>\n<mj-column>\n<mj-text css-class=\"b\">x</mj-text>\n</mj-column>\n</mj-section>\n</mj-body>\n</mjml>")
 	return out
 }
